@@ -57,7 +57,7 @@ def skeletons(tier: str):
 def plan(tier: str, seed: int):
     n = len(skeletons(tier))
     parts = 32
-    return [(p, parts) for p in range(min(parts, n))]
+    return [(p, parts) for p in range(min(parts, n))] + [("forward", p) for p in range(FORWARD_PARTS)]
 
 
 def build(usages, targets, kinds):
@@ -164,9 +164,85 @@ def run_case(acc: Acc, engine, usages, targets, kinds, removed, activation=("Gen
         acc.violate("reference-incomplete", {}, case, "no exception", repr(raised), "process raises although nothing needed is missing")
 
 
+# ---------------------------------------------------------------------------------------------------------------------
+# forward direction on complete engines of other shapes: rule chaining (an output variable in an antecedent, in every
+# rule order, also a term nobody has concluded yet), operator / defuzzifier instances shared between components,
+# Takagi-Sugeno / Tsukamoto / hybrid engines; x lock-previous / default settings x every way of giving the inputs
+# ---------------------------------------------------------------------------------------------------------------------
+FORWARD_LOCKS = [(False, float("nan")), (True, float("nan")), (False, 0.5), (True, 0.5)]
+FORWARD_MODES = ["float", "0d-array", "one-element-array", "input_values-row"]
+FORWARD_ROWS = [(0.25, 0.625), (0.0, 1.0), (1.5, 0.5)]
+FORWARD_PARTS = 8
+
+
+def forward_recipes(tier: str):
+    from ..gen import recipes as R
+    from ..ref.rulegrammar import prop as P
+    from . import c01, c13
+    out = [r for r, _ in c01.space_d(tier)] + [r for r, _ in c01.space_g("quick")] + [r for r in c13.engine_recipes() if len(r["inputs"]) == 2]
+    # a chained rule reading a term that no rule concludes, under every activation method
+    for act in ACTIVATIONS:
+        for kind in KINDS:
+            terms = None if kind == "integral" else [R.shape("Constant", "lo", [0.25]), R.shape("Constant", "hi", [0.75])]
+            df = ("Centroid", 16) if kind == "integral" else ("WeightedAverage", "Automatic")
+            o1 = R.out_var("o1", terms=terms, aggregation="Maximum" if kind == "integral" else None, defuzzifier=df)
+            o2 = R.out_var("o2", terms=terms, aggregation="Maximum" if kind == "integral" else None, defuzzifier=df)
+            rules = [R.rule(P("o1", (), "hi"), [("o2", (), "hi")]), R.rule(P("a", (), "lo"), [("o1", (), "lo")]),
+                     R.rule(("or", P("a", (), "hi"), P("o1", ("not",), "lo")), [("o2", (), "lo")])]
+            out.append(R.engine(f"chain-{kind}-{act[0]}", [R.in_var("a"), R.in_var("b")], [o1, o2],
+                                [R.block("rb", rules, "Minimum", "Maximum", "Minimum" if kind == "integral" else None, activation=act)]))
+    return out
+
+
+def run_forward(acc: Acc, recipe: dict, lock, mode: str) -> None:
+    import numpy as np
+    from ..gen import recipes as R
+    lp, default = lock
+    r = R.clone(recipe)
+    for o in r["outputs"]:
+        o["lock_previous"], o["default"] = lp, default
+    engine = R.build(r)
+    case = {"forward": True, "recipe": recipe, "lock": [lp, default], "mode": mode}
+    errors: list[str] = []
+    ready = engine.is_ready(errors)
+    acc.transitions += 1
+    acc.case((recipe["name"], acc.evals, lp, str(default), mode), nontrivial=True)
+    if not ready:
+        acc.cls("forward_not_ready")
+        return
+    acc.cls("forward_ready")
+    for row in FORWARD_ROWS:
+        if mode == "input_values-row":
+            engine.input_values = np.array([list(row)])
+        else:
+            for iv, x in zip(engine.input_variables, row):
+                iv.value = {"float": float(x), "0d-array": np.array(x), "one-element-array": np.array([x])}[mode]
+        try:
+            engine.process()
+            acc.transitions += 1
+        except Exception as ex:  # noqa: BLE001
+            acc.violate("ready-but-raises", {"missing": "other", "activation": recipe["blocks"][0]["activation"][0], "mode": mode,
+                                             "type": type(ex).__name__}, {**case, "row": list(row)}, "no exception", f"{type(ex).__name__}: {ex}",
+                        f"[{recipe['name']}] is_ready() is True but process() raises {type(ex).__name__}: {str(ex)[:100]} "
+                        f"(inputs {row} given as {mode}, lock-previous={lp}, default={default})")
+            return
+    acc.traces += 1
+
+
 def run_shard(tier: str, seed: int, shard):
     part, parts = shard
     acc = Acc(ID)
+    if part == "forward":
+        for idx, recipe in enumerate(forward_recipes(tier)):
+            if idx % FORWARD_PARTS != parts:
+                continue
+            acc.states += 1
+            for lock in FORWARD_LOCKS:
+                for mode in FORWARD_MODES:
+                    acc.guard({"forward": True, "recipe": recipe, "lock": list(lock), "mode": mode}, run_forward, acc, recipe, lock, mode)
+        n = acc.states
+        res = acc.result()
+        return res
     for idx, (usages, targets, kinds) in enumerate(skeletons(tier)):
         if idx % parts != part:
             continue
@@ -201,7 +277,9 @@ def summarize(tier: str, seed: int, merged: dict) -> dict:
             "conclusion targets o1 / o2 / both; output kind integral / weighted) x every subset of the removable "
             "components (3 per block + 2 per output, up to 2^10); states = engine configurations, transitions = "
             "is_ready + process calls, traces = configurations judged against the reference needs; non-trivial = at "
-            "least one component removed"
+            "least one component removed. Forward direction additionally on complete engines of other shapes (rule chaining in "
+            "every rule order incl. a term nobody concluded, shared operator/defuzzifier instances, Takagi-Sugeno / Tsukamoto / hybrid) x "
+            f"(lock-previous, default) in {[(a, str(b)) for a, b in FORWARD_LOCKS]} x inputs given as {FORWARD_MODES} x rows {FORWARD_ROWS}"
         ),
         "exhaustive": True,
         "vacuity_errors": vac,
@@ -211,6 +289,11 @@ def summarize(tier: str, seed: int, merged: dict) -> dict:
 
 def replay(case: dict):
     acc = Acc(ID)
+    if case.get("forward"):
+        from .c01 import fix_recipe
+        lock = (case["lock"][0], float(case["lock"][1]))
+        acc.guard(case, run_forward, acc, fix_recipe(case["recipe"]), lock, case["mode"])
+        return acc.violations
     usages, targets, kinds = tuple(case["usages"]), tuple(case["targets"]), tuple(case["kinds"])
     engine = build(usages, targets, kinds)
     rem = frozenset(tuple(x) for x in case["removed"])
